@@ -139,4 +139,29 @@ theorem gc_drops_response_of_present_referrer :
   · intro e he hd
     obtain ⟨_, _, hr⟩ := C06.gc_index_backed pDefault f35Index f35Blobs hz e he (by omega)
     exact f35_not_retained (hd ▸ hr)
+/-! ### F43: a client's manifest with the bytes of a referrers response ("twin") shares the response's digest
+
+The index is keyed by digest.  A delete by digest removes *every* entry of the digest (`C18.rm_digest_all`), so when a
+client has pushed the very bytes of the response document of subject `s` and deletes that manifest by digest, the
+registry's own entry for `s` goes with it: no response of that digest is registered for any subject afterwards, whatever
+else the index holds. -/
+
+/-- after a delete by digest no subject has a response of that digest (exact index model, every index) -/
+theorem delete_by_digest_drops_response (ix : Ixd.Index) (d : Ixd.Desc) (hnil : d.ann.isNil = true) (hd : d.dig ≠ 0)
+    (s : Nat) (e : Ixd.Desc) (he : Ixd.getBySubj (Ixd.rmDesc ix d) s = some e) : e.dig ≠ d.dig :=
+  (Ixd.rm_digest_all ix d hnil hd).1 e (List.mem_of_find?_eq_some he)
+
+/-- the index after: artifact 5 pushed, the response 9 registered for subject 7, a client's tagged push of the same
+    digest 9 (`AddDesc` appends the tagged entry: the response entry is not compatible with a tag) -/
+def f43Index : Ixd.Index :=
+  { manifests := [{ mt := 1, dig := 5 }, { mt := 2, dig := 9, ann := { isNil := false, subj := 7 } },
+                  { mt := 2, dig := 9, ann := { isNil := false, tag := 1 } }] }
+
+/-- witness of F43 (replayed on the implementation as corpus/C07/f43.ops): the twin has an entry of its own beside the
+    response; deleting it by digest leaves subject 7 without a response although the artifact 5 is still there -/
+theorem twin_delete_loses_response :
+    (f43Index.manifests.filter (·.dig = 9)).length = 2 ∧
+    (Ixd.getBySubj f43Index 7).isSome = true ∧
+    Ixd.getBySubj (Ixd.rmDesc f43Index { mt := 2, dig := 9 }) 7 = none ∧
+    (∃ e ∈ (Ixd.rmDesc f43Index { mt := 2, dig := 9 }).manifests, e.dig = 5) := by decide
 end C07
